@@ -1,5 +1,6 @@
 import copy
 import enum
+import re
 from typing import Tuple
 
 import valida.data
@@ -153,12 +154,11 @@ class DataPath:
         if not isinstance(spec, dict) or not spec:
             raise MalformedDataPathSpec(general_msg)
 
-        REPLACE = "path"
-        ESC_CODE = rf"\{REPLACE}"
-        if any(isinstance(k, str) and ESC_CODE in k for k in spec):
+        ESC_PATTERN = re.compile(r"\\(path)", flags=re.IGNORECASE)  # in any letter case
+        if any(isinstance(k, str) and ESC_PATTERN.search(k) for k in spec):
             # an escaped (literal) mapping; return an un-escaped copy:
             return {
-                (k.replace(ESC_CODE, REPLACE) if isinstance(k, str) else k): v
+                (ESC_PATTERN.sub(r"\1", k) if isinstance(k, str) else k): v
                 for k, v in spec.items()
             }
 
